@@ -30,11 +30,11 @@ Record gcase := mkgcase {
   gk_anc : bool;                 (* GenotypesAncestry *)
   gk_legacy : bool;              (* false from the harness *)
   gk_file : gtab;                (* what a full read of the file holds *)
-  gk_steps : list (gop float * gobs * option gobs)   (* operation, observed, fresh object's *)
+  gk_steps : list (xop (gop float) * gobs * option gobs)   (* operation | switch object, observed, fresh object's *)
 }.
 
 Definition model_geno (k : gcase) : list gobs :=
-  map gobs_of (gm_run float rareF (gk_file k) (gk_anc k) (gk_legacy k)
+  map gobs_of (gm_prun float rareF (gk_file k) (gk_anc k) (gk_legacy k)
                       (map (fun s => fst (fst s)) (gk_steps k))).
 
 Definition holds_fresh {O} (e : O -> O -> bool) (steps : list (O * option O)) : bool :=
@@ -65,11 +65,11 @@ Definition pobs_of (x : res (ptab * option ptab)) : pobs :=
 Record pcase := mkpcase {
   pk_legacy : bool;
   pk_file : ptab;
-  pk_steps : list (pop * pobs * option pobs)
+  pk_steps : list (xop pop * pobs * option pobs)
 }.
 
 Definition model_pheno (k : pcase) : list pobs :=
-  map pobs_of (pm_run (pk_file k) (pk_legacy k) (map (fun s => fst (fst s)) (pk_steps k))).
+  map pobs_of (pm_prun (pk_file k) (pk_legacy k) (map (fun s => fst (fst s)) (pk_steps k))).
 
 Definition check_pheno (k : pcase) : bool * bool :=
   (list_eqb pobs_eqb (model_pheno k) (map (fun s => snd (fst s)) (pk_steps k)),
